@@ -233,6 +233,23 @@ def declare_rules(run):
         okd = report_error_in_region(f, sreg) and err_return_in_region(f, sreg) and f.edge_dominates(sb, none, ibk) and f.edge_dominates(sb, none, pbk)
     run.check(okd, R, R + "|declare|dup-is-error", f.loc(gt["span"]), "a second declaration of a name in one scope is reported and rejected; insertion happens only on the `not found` edge",
               "SymbolManager::declare can insert a name that is already declared in that scope (or no longer reports the duplicate)")
+    # the duplicate is reported at the new declaration; the note points at the existing one
+    if sw:
+        some, none, sb = sw
+        sreg = T.dominated_region(f, some, sb)
+        errs = [t for b, t in T.region_calls(f, sreg) if re.search(r"Report::(push_parent|error_span)$", short_callee(t))]
+        notes = [t for b, t in T.region_calls(f, sreg) if short_callee(t).endswith("Report::note_span")]
+        span_param = None
+        for i in range(1, f.arg_count + 1):
+            if (f.local_ty(i) or "").endswith("diagn::span::Span"):
+                span_param = "P%d" % i
+        okl = len(errs) == 1 and len(notes) == 1 and span_param is not None
+        if okl:
+            e_sp = deep(f, errs[0]["args"][-1], 5)
+            n_sp = deep(f, notes[0]["args"][-1], 6)
+            okl = e_sp == span_param and bool(re.fullmatch(r"SymbolManager::get\(P1, HashMap::get\(.*\)@Some\.0\)\.span", n_sp))
+        run.check(okl, R, R + "|declare|dup-location", f.loc(gt["span"]), "a duplicate is reported at the declaration being made, with a note at the existing one",
+                  "SymbolManager::declare no longer reports a duplicate at the span of the declaration being made (and the existing declaration in the note): the first error would not lie on the line that introduced the duplicate")
     run.check(f.edge_dominates(gb, gfalse, ibk) and f.edge_dominates(gb, gfalse, pbk), R, R + "|declare|level-before-insert", f.loc(it["span"]),
               "insertion only behind the nesting-level test", "a declaration can be inserted without having passed the nesting-level test")
     # the new declaration: depth = level, context = enclosing[0..level] + name, item_ref = index of the pushed element
@@ -359,27 +376,36 @@ def walker_rules(run):
     """sibling AST walkers: each one that keeps a symbol context replaces it, on every Symbol node, by the context recorded
     for that node's declaration"""
     prog = run.prog
-    # discovery: every function that stores a `SymbolDecl.ctx` into something named symbol_ctx
+    # discovery: every function that keeps a `SymbolDecl.ctx` (the context recorded for a declaration) in a local or a field
+    # of its own; all assignments to that local/field are the updates and initialisations of "the current context"
     found = {}
     for f in prog.real_fns():
+        holders = set()
+        evs = []
         for bi, si, st in f.stmts():
-            if st["k"] != "assign":
+            if st["k"] != "assign" or st["rv"]["k"] not in ("use", "ref"):
                 continue
             pl = st["place"]
-            nm = f.local_name(pl["l"]) if not pl["p"] else None
+            src = deep(f, st["rv"]["op"], 5) if st["rv"]["k"] == "use" else deep(f, {"copy": st["rv"]["place"]}, 5)
             fld = None
             for pr in pl["p"]:
                 if isinstance(pr, dict) and "f" in pr:
                     fld = pr["name"]
-            if nm != "symbol_ctx" and fld != "symbol_ctx":
+            if pl["p"] and fld is None:
                 continue
-            src = deep(f, st["rv"]["op"], 5) if st["rv"]["k"] == "use" else (deep(f, {"copy": st["rv"]["place"]}, 5) if st["rv"]["k"] == "ref" else (deep(f, ("call",), 1) if False else "?"))
-            found.setdefault(f.id, []).append((bi, st, src))
+            h = ("field", fld) if fld else ("local", pl["l"])
+            evs.append((h, bi, st, src))
         for bi, t in f.calls():
             d = t["dest"]
-            nm = f.local_name(d["l"]) if not d["p"] else None
-            if nm == "symbol_ctx":
-                found.setdefault(f.id, []).append((bi, t, deep(f, ("call", t, bi), 5)))
+            if d["p"]:
+                continue
+            evs.append((("local", d["l"]), bi, t, deep(f, ("call", t, bi), 5)))
+        for h, bi, st, src in evs:
+            if re.search(r"SymbolManager::get\(.*\)\.ctx$", src) and (h[0] == "field" or f.local_name(h[1])):
+                holders.add(h)
+        for h, bi, st, src in evs:
+            if h in holders:
+                found.setdefault(f.id, []).append((bi, st, src))
     for fid in sorted(set(found) | set(WALKERS)):
         f = prog.fn(fid)
         if f is None:
@@ -558,9 +584,17 @@ def parse_rules(run):
         f = run.anchor(R, name)
         if f is None:
             continue
-        ls = f.locals_named("hierarchy_level")
+        # the counter is whatever local the node records as its level
+        ls = set()
+        for bi, si, st in f.stmts():
+            if st["k"] == "assign" and st["rv"]["k"] == "agg" and st["rv"].get("agg") == "adt":
+                fl = st["rv"].get("fields") or []
+                for nme, o in zip(fl, st["rv"]["ops"]):
+                    if op_local(o) is not None and (nme == "hierarchy_level" or (st["rv"].get("variant") == "Variable" and nme == "1")):
+                        ls.add(f.copy_root(op_local(o)))
+        ls = sorted(ls)
         ok = len(ls) == 1
-        why = "no single `hierarchy_level` counter"
+        why = "the node's level is not recorded from a single counter"
         if ok:
             l = ls[0]
             defs = f.full_defs(l)
@@ -609,6 +643,27 @@ def parse_rules(run):
                   "%s: %s" % (name, why))
 
 
+def returned_counter(f):
+    """the local whose value is returned as `Ok(counter)` (followed back through copies)"""
+    for bi, si, st in f.stmts():
+        if st["k"] == "assign" and st["place"]["l"] == 0 and not st["place"]["p"] and st["rv"]["k"] == "agg" and st["rv"].get("variant") == "Ok" and st["rv"]["ops"]:
+            l = op_local(st["rv"]["ops"][0])
+            if l is not None:
+                return f.copy_root(l)
+    return None
+
+
+def counter_increments(f, counter):
+    """blocks holding `counter += 1`"""
+    out = []
+    for bi, si, st in f.stmts():
+        if st["k"] == "assign" and st["rv"]["k"] == "binop" and st["rv"]["op"].startswith("Add") and const_int(st["rv"]["r"]) == 1:
+            ll = op_local(st["rv"]["l"])
+            if ll is not None and counter is not None and f.copy_root(ll) == counter:
+                out.append(bi)
+    return out
+
+
 def prepass_rules(run):
     """the constants / #if pre-pass terminates on `no progress`; that is only sound when the per-round count is the number of
     constants that have a value in this round: every constant node is evaluated or answered `Resolved` in every round"""
@@ -647,12 +702,7 @@ def prepass_rules(run):
                     if cb in l_:
                         loop |= l_
                         hdr = h
-                incs = []
-                for bi, si, st in f.stmts():
-                    if st["k"] == "assign" and st["rv"]["k"] == "binop" and st["rv"]["op"].startswith("Add") and const_int(st["rv"]["r"]) == 1:
-                        ll = op_local(st["rv"]["l"])
-                        if ll is not None and f.local_name(f.copy_root(ll)) == "resolved_count":
-                            incs.append(bi)
+                incs = counter_increments(f, returned_counter(f))
                 # from the Constant arm, the next round of the loop cannot be reached without the call (or without
                 # counting the constant)
                 seen = set()
